@@ -94,10 +94,18 @@ CHECKS = {
              "KRotation = healthy targets; exclusion after a failed probe until made healthy again and rebuilt; recovery; none healthy => no target; "
              "floor/ceil fairness of the cursor arithmetic and of accepted traces; accepted => c09_rebuild_ok and (without drain restores over failed probes) "
              "c09_ok. Correspondence: flapping / all-failing / staggered / slow probe scripts, request bursts, parked requests, redeploys, drain scenarios "
-             "plus random scenarios; monitors c09_ok / c09_rebuild_ok / c09_cadence.",
+             "plus random scenarios; monitors c09_ok / c09_rebuild_ok / c09_cadence. Probe cadence (props/C09probe.v, C09probelink.v over "
+             "model/Ticker.v = HealthCheck.run/check: immediate first check, time.Ticker with its one-slot channel, probe timeout, Close): for every "
+             "start time, interval > 0, timeout, answer script of any length and stop instant - probe k is sent at exactly t0 + k*interval when every "
+             "check lasts less than the interval (no drift, for ever); in general the next check starts at the end of the previous one if a tick was "
+             "missed meanwhile and on the first later tick otherwise (never overlapping, gap <= max(interval, timeout), re-synchronisation to the grid); "
+             "result time and verdict; nothing sent or reported after Close; one requested strict bound refuted with witness and proved in its true form. "
+             "Correspondence: per-target interval / timeout / scripted answer delays (ties at +-1 ns around interval, timeout, ticks, stop) on the real "
+             "code under the virtual clock; every probe-sent / probe-apply instant must equal the model's exactly.",
         note="No axioms. Recorded finding C09-F1 (D12: the end of a Drain writes 'healthy' over a failed probe result; a successful probe flips 'draining' back to "
-             "'healthy'). The 503 mapping belongs to C02; probe cadence is monitor-only.",
-        technique="Coq proof (invariants over an event-trace acceptor, arithmetic induction for fairness) + kernel-evaluated trace acceptance", ref="§7 C09"),
+             "'healthy'). The 503 mapping belongs to C02. Ties between Close-by-deploy-timeout and a tick/result are decided by Go's select and timer heap: the generator keeps "
+             "the deploy timeout 500 ns away from the loop's instants.",
+        technique="Coq proof (invariants over an event-trace acceptor, arithmetic induction for fairness; induction over answer scripts for the ticker loop) + kernel-evaluated trace acceptance and exact timed correspondence", ref="§7 C09"),
     "C10": dict(
         text="Theorems over all cookie header bytes, percentages, allowlists and histories (props/C10.v: exactness, stickiness, monotonicity, "
              "100% total, share bound, float comparison = integer threshold via Flocq, history theorem incl. restart); correspondence: "
